@@ -109,13 +109,13 @@ CHECKS["C08"] = dict(
 CHECKS["C07"] = dict(
     engine="E2", category="model_checking", design="4/C07",
     technique="stateless exploration of thread interleavings of the real runtime under a controlled scheduler (engine E2): worker threads park at every lock hand-off krill reports (hook H2, both storage back-ends); depth-first search over the choice points with a preemption bound, every schedule re-executed from the same initial state in its own process; plus probes that resume a thread whose lock is reported held, so that the real file / rwlocks are exercised",
-    text="Harnesses: two writers racing to add the same ROA plus a reader; accepted, rejected and effect-less commands mixed plus a reader; commands on a CA and on its parent; disk and memory back-end. For every schedule with at most 1 (quick) / 2 (thorough) preemptions: every recorded command has the next consecutive version; the command files equal what the history API lists (with actor); acknowledged commands = recorded successes, rejected = recorded with the error, commands without effect leave no trace; of two racing identical changes exactly one wins; every read equals the state after a prefix of the recorded order and versions never go back; the final state is the replay of the recorded commands; a fresh instance loads the same state; no deadlock.",
+    text="Harnesses: two writers racing to add the same ROA plus a reader; accepted, rejected and effect-less commands mixed plus a reader; commands on a CA and on its parent; a writer and three overlapping callers of the command-history API with krill's history cache on (every listing is the recorded order, each command once); disk and memory back-end. For every schedule with at most 1 (quick) / 2 (thorough) preemptions: every recorded command has the next consecutive version; the command files equal what the history API lists (with actor); acknowledged commands = recorded successes, rejected = recorded with the error, commands without effect leave no trace; of two racing identical changes exactly one wins; every read equals the state after a prefix of the recorded order and versions never go back; the final state is the replay of the recorded commands; a fresh instance loads the same state; no deadlock.",
     note="Scheduling points are the reported lock hand-offs only; a command's whole load-process-store-cache sequence runs inside one such lock. Unreported std locks are handled by a 400 ms watchdog (a thread that reaches no point is treated as blocked), which makes the probe executions timing-dependent; the trusted explorations are deterministic (a replayed prefix that does not fit is a machinery error). Replay: kcheck C07 --replay <file>.")
 
 CHECKS["C18"] = dict(
     engine="E2", category="model_checking", design="4/C18",
     technique="stateless exploration of thread interleavings of the real runtime under a controlled scheduler (engine E2, scheduling points at the lock hand-offs reported through hook H2, preemption-bounded depth-first search, every schedule re-executed from the same initial state in its own process): operation threads plus a thread running the daemon's scheduler loop body, compared with all serial orders of the same operations",
-    text="Variants: two changes on one CA (ROA, ASPA); parent-side entitlement change with the child's synchronisation; changes on a CA and on its parent; a ROA change with an API-requested repository synchronisation; a ROA change with an RRDP update; a ROA change with a forced re-publication of all CAs - each together with the scheduler thread processing the tasks these produce; disk back-end (memory back-end for parent-child, thorough also same-ca). For every schedule with at most 1 (quick) / 2 (thorough) preemptions: all threads complete (no deadlock, detected as 'nobody can be resumed and nobody progresses'), no call fails (none fails in any serial order), the scheduler reports nothing fatal, and after background work has caught up (including one hour of retries) the observable state equals that of a serial order and the tree is relying-party valid.",
+    text="Variants: two changes on one CA (ROA, ASPA); parent-side entitlement change with the child's synchronisation; changes on a CA and on its parent; a ROA change with an API-requested repository synchronisation; a ROA change with an RRDP update; a ROA change with a forced re-publication of all CAs; two clients that each change the CA and then ask for its repository synchronisation (so that a publication can arrive while the RRDP update task runs) - each together with the scheduler thread processing the tasks these produce; disk back-end (memory back-end for parent-child, thorough also same-ca). For every schedule with at most 1 (quick) / 2 (thorough) preemptions: all threads complete (no deadlock, detected as 'nobody can be resumed and nobody progresses'), no call fails (none fails in any serial order), the scheduler reports nothing fatal, and after background work has caught up (including one hour of retries) the observable state equals that of a serial order and the tree is relying-party valid.",
     note="Scheduling points are reported lock hand-offs only; unreported std locks are resolved by a 400 ms watchdog, which can make a prefix not exactly replayable (counted in coverage, judged but not expanded). One call per operation thread. Replay: kcheck C18 --replay <file>.")
 
 CHECKS["C10"] = dict(
